@@ -46,7 +46,7 @@ def run(ctx) -> None:
     from ..rules import skips as _skips
     _base = _skips.load_baseline()
     for _m in ctx.p.modules.values():
-        if _m.name in ("aas_core_codegen.run", "aas_core_codegen.main"):
+        if _m.name in ("aas_core_codegen.run", "aas_core_codegen.main", "aas_core_codegen.smoke.main"):
             for _f in _m.functions.values():
                 _skips.check_skips(ctx, _f, "SKIPS", _base)
 
